@@ -406,10 +406,10 @@ impl Prop for Finds {
     }
     fn streams(&self) -> Vec<Stream> {
         match self.0 {
-            Which::Prefix => vec![Stream::new("gen", 6400, 320000), Stream::new("vocab", 7, 7), Stream::new("corpus", 640, 3285 * 2)],
-            Which::Typo => vec![Stream::new("gen", 2400, 48000), Stream::new("vocab", 7, 7), Stream::new("corpus", 480, 3285 * 2), Stream::new("letters", 260, 2600)],
-            Which::Whole => vec![Stream::new("gen", 12800, 640000), Stream::new("vocab", 7, 7), Stream::new("corpus", 1600, 3285 * 2)],
-            Which::SplitJoin => vec![Stream::new("gen", 6400, 192000), Stream::new("vocab", 7, 7), Stream::new("corpus", 960, 3285 * 2)],
+            Which::Prefix => vec![Stream::new("gen", 6400, 320000), Stream::new("vocab", 8, 8), Stream::new("corpus", 640, 3285 * 2), Stream::new("big", 16, 160)],
+            Which::Typo => vec![Stream::new("gen", 2400, 48000), Stream::new("vocab", 8, 8), Stream::new("corpus", 480, 3285 * 2), Stream::new("letters", 260, 2600), Stream::new("big", 16, 160)],
+            Which::Whole => vec![Stream::new("gen", 12800, 640000), Stream::new("vocab", 8, 8), Stream::new("corpus", 1600, 3285 * 2), Stream::new("big", 16, 160)],
+            Which::SplitJoin => vec![Stream::new("gen", 6400, 192000), Stream::new("vocab", 8, 8), Stream::new("corpus", 960, 3285 * 2), Stream::new("big", 16, 160)],
         }
     }
     fn floors(&self) -> Vec<(&'static str, u64, u64)> {
@@ -432,7 +432,7 @@ impl Prop for Finds {
         let mut done = BTreeSet::new();
         match stream {
             "gen" => {
-                let lang = LANGS[(idx % 7) as usize];
+                let lang = LANGS[(idx % NL) as usize];
                 let corpus = corpus_recs();
                 let n = cx.rng.range(1, 8);
                 let mut recs = gen::rand_recs(&mut cx.rng, lang, n, false, &corpus);
@@ -454,7 +454,7 @@ impl Prop for Finds {
             }
             "vocab" => {
                 // every vocabulary word of one language, alone and decorated, in one-record stores
-                let lang = LANGS[(idx % 7) as usize];
+                let lang = LANGS[(idx % NL) as usize];
                 let words = gen::vocab(lang);
                 for (k, w) in words.iter().enumerate() {
                     let pre = ["", "'", "- ", " ", "("][k % 5];
@@ -480,11 +480,44 @@ impl Prop for Finds {
                     let (l, w) = fw[idx as usize];
                     (LANGS.iter().find(|x| **x == l).copied().unwrap_or("none"), w.to_string())
                 } else {
-                    let lang = LANGS[(idx % 7) as usize];
+                    let lang = LANGS[(idx % NL) as usize];
                     let v = gen::vocab(lang);
                     (lang, cx.rng.pick(&v).to_string())
                 };
                 self.typo_exhaustive(cx, lang, &word);
+            }
+            "big" => {
+                // a catalogue of 4200-9000 records dominated by one word (posting lists beyond 4096 / 8192
+                // entries), limit = N; the checked records are short words and pairs that share only the
+                // dominant word's one- and two-letter starts with it ("wi-fi" / "wifi" next to thousands of "with ...")
+                let lang = LANGS[(idx % NL) as usize];
+                let alpha = gen::lower_alphabet(lang);
+                let n = *cx.rng.pick(&[4200usize, 4500, 5000, 8300, 9000]);
+                let dom = gen::rand_word(&mut cx.rng, &alpha, 4, 5);
+                let p2: String = dom.chars().take(2).collect();
+                let mut recs: Vec<Rec> = (0..n).map(|i| (10_000 + i, format!("{} {}", gen::rand_word(&mut cx.rng, &alpha, 3, 8), dom), i % 50)).collect();
+                let mut targets: Vec<Rec> = vec![];
+                for t in 0..5 {
+                    let s2 = gen::rand_word(&mut cx.rng, &alpha, 2, 2);
+                    let tail = gen::rand_word(&mut cx.rng, &alpha, 3, 6);
+                    let title = match t {
+                        0 => format!("{}-{} {}", p2, s2, tail),
+                        1 => format!("{}{} {}", p2, s2, tail),
+                        2 => format!("{} {}{}", tail, p2, gen::rand_word(&mut cx.rng, &alpha, 3, 5)),
+                        3 => format!("{}{} {}", p2, gen::rand_word(&mut cx.rng, &alpha, 4, 7), s2),
+                        _ => gen::rand_title(&mut cx.rng, lang, 3),
+                    };
+                    targets.push((t + 1, title, 60 + t));
+                }
+                let at = cx.rng.below(recs.len());
+                for (k, t) in targets.iter().enumerate() {
+                    recs.insert((at + k * 37) % recs.len(), t.clone());
+                }
+                let st = St::build_sentinel(lang, &recs, recs.len());
+                for t in &targets {
+                    self.check_record(cx, &st, &json!(format!("{} records '<random word> {}' plus {:?}, limit = N", n, dom, targets)), t, &mut done);
+                }
+                cx.count("catalogues of 4200-9000 records dominated by one word");
             }
             "corpus" => {
                 let lang: &'static str = if idx % 2 == 0 { "en" } else { "none" };
